@@ -1,6 +1,7 @@
 package c20
 
 import (
+	"github.com/ProtonMail/gluon/imap"
 	"testing"
 
 	"github.com/ProtonMail/gluon/rfc822"
@@ -63,6 +64,25 @@ func TestGenerator_IdentityMatchesHash(t *testing.T) {
 				t.Fatalf("generator and rfc822.GetMessageHash disagree: %v and %v: same identity=%v, same hash=%v\n%q\n%q",
 					specs[i], specs[j], same, hashes[i] == hashes[j], build(specs[i]), build(specs[j]))
 			}
+		}
+	}
+}
+
+// Precondition of the damaged variant: APPEND accepts it, the message parser accepts it, GetMessageHash does not.
+func TestGenerator_DamagedHasNoHash(t *testing.T) {
+	for _, multi := range []bool{false, true} {
+		lit := build(spec{Base: 1, Multi: multi, Damaged: true})
+
+		if err := rfcvalidation.ValidateMessageHeaderFields([]byte(lit)); err != nil {
+			t.Fatalf("generator: the damaged message is not accepted by APPEND: %v", err)
+		}
+
+		if _, err := imap.NewParsedMessage([]byte(lit)); err != nil {
+			t.Fatalf("generator: the damaged message is not accepted by the message parser: %v", err)
+		}
+
+		if h, err := rfc822.GetMessageHash([]byte(lit)); err == nil {
+			t.Fatalf("generator: GetMessageHash succeeds on the damaged message (%s): it is not damaged enough", h)
 		}
 	}
 }
